@@ -167,6 +167,7 @@ def run(R):
             R.ob("C12-R1", "same-inputs:" + nm, "the %s materialiser passes its own (sds, dict, current_time) parameters (passes %s)" % (nm, names),
                  ok, where=b.where(c.ln))
     r3(R)
+    r4_to_r8(R, tr, inc)
     # ---- R2
     impls = [b for b in prog.bodies.values() if b.self_adt == "shared::provenance::ExpirationProvenance" and b.r.get("impl_trait", "").endswith("Provenance")]
     bym = {b.name: b for b in impls}
@@ -315,3 +316,235 @@ def _cdesc(b, c):
     if c["kind"] == "call":
         return "%s(..) is %s" % (c["call"].name(), c["truth"])
     return c["kind"]
+
+
+# ---------------------------------------------------------------- R4 .. R8 (completeness of the incremental path)
+
+from lib import pipeline as P
+
+
+def _role(b, root):
+    """element source of a collection local: follow the receiver chain of its definition (predicates/closures do not count)"""
+    names, roots = P.flat(P.tree(b, {"k": "copy", "pl": {"l": root["local"], "p": [], "t": ""}}, stop_named=False))
+    new = "translate_sds_to_datalog" in names
+    old = any(r["k"] == "root" and r["name"] == "sds_plus_old" for r in roots)
+    if old and not new:
+        return "old"
+    if new and not old:
+        return "new"
+    return "mixed" if (old and new) else "other"
+
+
+def r4_to_r8(R, tr, inc):
+    prog = R.prog
+    R.rule("C12-R4", "renewal wins: where the incremental path seeds the expiry tags, a fact present both among the carried facts and among "
+                     "the new/renewed facts ends with the renewed (later) expiry - the carried tags are written first, the new ones last "
+                     "(or the write is a max)")
+    R.rule("C12-R5", "every premise counts: the tag of a derived fact is the conjunction over ALL matched premise facts of the rule instance "
+                     "(no truncating adaptor between the matched premises and the fold), guarded by the zero test")
+    R.rule("C12-R6", "improved facts are consumed: in every round after the first the delta handed to the premise join contains the facts "
+                     "queued in delta_improved")
+    R.rule("C12-R7", "nothing alive is dropped: static-graph facts are translated with the never-expiring tag (u64::MAX), and every "
+                     "materialised fact whose predicate belongs to a component is returned with its tag - controlled by nothing else")
+    R.rule("C12-R8", "component routing: annotated predicates are matched against component IRIs longest first")
+    # ---- R4
+    if inc is not None:
+        sets = [c for c in inc.calls() if c.name() == "set_tag"]
+        R.ob("C12-R4", "seeds", "incremental_sds_plus seeds initial tags with set_tag (found %d)" % len(sets), len(sets) >= 1, where=inc.where())
+        seq = []  # (role, call) in program order of effect
+        for c in sets:
+            drv = P.loop_driver(inc, c.bb)
+            if drv is None or drv[2] is None:
+                seq.append(("?", c))
+                continue
+            names, roots = P.flat(drv[2])
+            roles = []
+            for r in roots:
+                if r["k"] == "root":
+                    roles.append(_role(inc, r))
+                else:
+                    roles.append("other")
+            seq.append((roles, c, names))
+        ok = False
+        why = None
+        if len(seq) == 1 and seq[0][0] != "?":
+            roles, c, names = seq[0]
+            if roles == ["old", "new"] and "chain" in names and not ({"rev", "sorted", "sort"} & set(names)):
+                ok = True
+            else:
+                why = "one loop over %s via %s: the carried tag may be written after (and overwrite) the renewed one" % (roles, names)
+        elif len(seq) >= 2 and all(x[0] != "?" for x in seq):
+            olds = [x for x in seq if x[0] == ["old"]]
+            news = [x for x in seq if x[0] == ["new"]]
+            if olds and news and len(olds) + len(news) == len(seq) and all(_ordered(inc, o[1].bb, n[1].bb) for o in olds for n in news):
+                ok = True
+            else:
+                why = "the loops that write carried and renewed tags are not ordered carried-before-renewed"
+        else:
+            why = "could not identify what the seeding loop iterates over"
+        R.ob("C12-R4", "order", "carried expiries are seeded before (and overwritten by) new/renewed expiries", ok,
+             where=inc.where(sets[0].ln if sets else None), detail=why if not ok else None)
+    # ---- R5, R6
+    rounds = [b for b in prog.bodies.values() if (b.r.get("trait_item") or "").endswith("ProvenanceInferenceStrategy::infer_round") and b.crate == "datalog"]
+    for b in rounds:
+        R.saw(b)
+        folds = [c for c in b.calls() if c.name() in ("fold", "reduce", "try_fold")]
+        conj_folds = []
+        for c in folds:
+            from c19 import closure_family_calls
+            key, inner = closure_family_calls(prog, b, c.args[-1])
+            if key and any(ic.name() == "conjunction" for x, ic in inner):
+                conj_folds.append(c)
+        R.ob("C12-R5", "fold:" + b.short, "%s combines premise tags with a fold over conjunction (found %d)" % (b.short, len(conj_folds)),
+             len(conj_folds) >= 1, where=b.where())
+        for c in conj_folds:
+            t = P.tree(b, c.args[0])
+            names, roots = P.flat(t)
+            bad = [n for n in names if n not in ("iter", "into_iter", "map", "deref", "cloned", "copied", "as_slice", "clone", "as_ref", "borrow", "to_vec", "collect")]
+            rootok = len(roots) == 1 and roots[0]["k"] == "root"
+            src = None
+            if rootok:
+                der = P.derives(prog, b, roots[0]["local"])
+                src = ("call", "find_premise_solutions_with_triples") in der
+            ok = not bad and rootok and bool(src)
+            R.ob("C12-R5", "all-premises:" + b.short, "the conjunction ranges over every matched premise fact of the instance (pipeline %s)" % P.render(t),
+                 ok, where=b.where(c.ln),
+                 detail=None if ok else "adaptor(s) %s cut the premises short / the folded collection is not the matched-premise list: a skipped "
+                 "premise's expiry (or probability) does not bound the conclusion's tag" % bad)
+        # matched premise list itself: built over all rule.premise patterns
+        rp = [x for x in prog.bodies.values() if x.crate == "datalog" and x.name == "resolve_premise_triples" and "provenance_semi_naive" in x.key]
+        for x in rp:
+            for c in x.calls():
+                if c.name() in ("filter_map", "map") and c.args:
+                    names, roots = P.flat(P.tree(x, c.args[0]))
+                    bad = [n for n in names if n not in ("iter", "into_iter", "deref")]
+                    R.ob("C12-R5", "patterns:" + x.short, "resolve_premise_triples visits every premise pattern (pipeline %s)" % names, not bad, where=x.where(c.ln))
+        # R6
+        joins = [c for c in b.calls() if c.name().startswith("find_premise_solutions")]
+        R.ob("C12-R6", "join:" + b.short, "%s hands a delta to the premise join" % b.short, len(joins) >= 1, where=b.where())
+        for c in joins:
+            pl = F.op_place(c.args[-1])
+            der = P.derives(prog, b, pl["l"]) if pl is not None else set()
+            ok = ("field", "self.delta_improved") in der
+            R.ob("C12-R6", "consumes:" + b.short, "the delta of a later round includes the facts queued in self.delta_improved", ok, where=b.where(c.ln),
+                 detail=None if ok else "facts whose tag improved are queued but never joined again: consequences keep the stale, too-early expiry")
+            # the same local on every path (no branch that builds the delta without the queue, except the first round)
+    # ---- R7
+    if tr is not None:
+        fam = prog.family(tr.key)
+        pushes = [(x, c) for x in fam for c in x.calls() if c.name() == "push" and len(c.args) == 2]
+        kinds = []
+        for x, c in pushes:
+            o = x.origin(c.args[1], stop_named=False)
+            rv = o[1] if o[0] == "rv" else None
+            if rv is None and o[0] == "place":
+                d = x.single_def(o[1]["l"])
+                if d and d[0] == "assign":
+                    rv = d[3]
+            if rv is not None and rv["rv"] == "aggregate" and rv.get("ak") == "tuple" and len(rv["ops"]) == 2:
+                e = rv["ops"][1]
+                ci = F.const_int(e)
+                if ci is None and e.get("k") == "const":
+                    kinds.append(("const", str(e.get("d") or e.get("const_def") or ""), c, x))
+                elif ci is not None:
+                    kinds.append(("const", str(ci), c, x))
+                else:
+                    kinds.append(("computed", None, c, x))
+        consts = [k for k in kinds if k[0] == "const"]
+        comp = [k for k in kinds if k[0] == "computed"]
+        okc = len(consts) >= 1 and all(("MAX" in k[1]) or k[1].startswith("18446744073709551615") for k in consts)
+        R.ob("C12-R7", "static-max", "the translator emits static-graph facts with expiry u64::MAX (found %s) and window facts with a computed expiry (%d site)"
+             % ([k[1] for k in consts], len(comp)), okc and len(comp) >= 1, where=tr.where(consts[0][2].ln if consts else None),
+             detail=None if okc else "a finite expiry on static background facts makes every fact derived from them expire")
+    if inc is not None:
+        ins = []
+        for c in inc.calls():
+            if c.name() == "insert" and len(c.args) == 3:
+                drv = P.loop_driver(inc, c.bb, stop_named=False)
+                if drv and drv[2] is not None and "query" in P.flat(drv[2])[0]:
+                    ins.append(c)
+        R.ob("C12-R7", "collects", "incremental_sds_plus collects its result in a loop over the reasoner's facts (found %d insert site)" % len(ins), len(ins) == 1, where=inc.where())
+        for c in ins:
+            extra = []
+            for cd in G.conditions(inc, c.bb):
+                if cd["kind"] == "variant":
+                    o = inc.origin({"k": "copy", "pl": {"l": cd["pl"]["l"], "p": [], "t": ""}}, stop_named=False)
+                    if o[0] == "call" and o[1].name() in ("strip_window_prefix", "decode", "next"):
+                        continue
+                    if o[0] == "place":
+                        ds = [d for d in inc.defs().get(o[1]["l"], []) if d[0] == "call"]
+                        if ds and all(d[2].name() in ("strip_window_prefix", "decode", "next") for d in ds):
+                            continue
+                extra.append(_cdesc(inc, cd) + "@%s" % cd.get("bb"))
+            R.ob("C12-R7", "unconditional-result", "a materialised fact of a component is returned under no condition other than `predicate decodes` and "
+                 "`belongs to a component`", not extra, where=inc.where(c.ln),
+                 detail=None if not extra else "further condition(s) %s drop facts that from-scratch reasoning yields" % extra)
+            # the stored expiry is the tag store's value for that fact
+            o = inc.origin(c.args[2], stop_named=False)
+            okt = o[0] == "call" and o[1].name() == "get_tag"
+            R.ob("C12-R7", "expiry-is-tag", "the expiry returned for a fact is its tag in the tag store after the fixpoint", okt, where=inc.where(c.ln))
+    # ---- R8
+    ac = [b for b in prog.bodies.values() if b.crate == "datalog" and b.name == "all_component_iris" and not b.is_closure]
+    sw = [b for b in prog.bodies.values() if b.crate == "datalog" and b.name == "strip_window_prefix" and not b.is_closure]
+    R.ob("C12-R8", "anchors", "all_component_iris and strip_window_prefix exist", len(ac) == 1 and len(sw) == 1)
+    if len(ac) == 1 and len(sw) == 1:
+        a, w = ac[0], sw[0]
+        longest = any(c.name() in ("max_by_key", "max_by") for x in prog.family(w.key) for c in x.calls())
+        desc = False
+        for c in a.calls():
+            if c.name() in ("sort_by", "sort_unstable_by") and len(c.args) == 2:
+                from c19 import closure_family_calls
+                key, inner = closure_family_calls(prog, a, c.args[1])
+                cl = prog.bodies.get(key) if key else None
+                if cl is None:
+                    continue
+                for ic in cl.calls():
+                    if ic.name() == "cmp" and len(ic.args) == 2:
+                        def param_of(op):
+                            o = cl.origin(op, stop_named=False)
+                            if o[0] == "call" and o[1].name() == "len":
+                                o2 = cl.origin(o[1].args[0], stop_named=False)
+                                if o2[0] == "place":
+                                    return _root_param12(cl, o2[1]["l"])
+                            if o[0] == "place":
+                                d = cl.single_def(o[1]["l"])
+                                if d and d[0] == "call" and d[2].name() == "len":
+                                    o2 = cl.origin(d[2].args[0], stop_named=False)
+                                    if o2[0] == "place":
+                                        return _root_param12(cl, o2[1]["l"])
+                            return None
+                        pa, pb = param_of(ic.args[0]), param_of(ic.args[1])
+                        if pa == 3 and pb == 2:
+                            desc = True
+            if c.name() in ("sort_by_key", "sort_unstable_by_key", "sort_by_cached_key") and len(c.args) == 2:
+                from c19 import closure_family_calls
+                key, inner = closure_family_calls(prog, a, c.args[1])
+                cl = prog.bodies.get(key) if key else None
+                if cl is not None and any(ic.name() == "len" for ic in cl.calls()) and "Reverse" in str(cl.r.get("ret", "")) + "".join(l.get("ty", "") for l in cl.locals[:1]):
+                    desc = True
+        R.ob("C12-R8", "longest-first", "component IRIs are tried longest first (descending length sort in all_component_iris, or a longest-match "
+             "selection in strip_window_prefix)", desc or longest, where=a.where(),
+             detail=None if (desc or longest) else "when one component IRI is a prefix of another, facts of the longer one are attributed to the shorter one")
+
+
+def _ordered(b, first_bb, second_bb):
+    """every execution of second_bb comes after all executions of first_bb: second is reached only past first's loop, never back"""
+    if first_bb in b.reach_from(b.succ(second_bb)) or first_bb == second_bb:
+        return False
+    drv = P.loop_driver(b, first_bb)
+    h = drv[0] if drv else first_bb
+    return b.dominates(h, second_bb)
+
+
+def _root_param12(cl, l, depth=0):
+    if l is None or depth > 8:
+        return None
+    if 1 <= l <= cl.nargs:
+        return l
+    d = cl.single_def(l)
+    if d and d[0] == "assign":
+        rv = d[3]
+        src = rv.get("pl") or F.op_place(rv.get("op") or {})
+        if src is not None:
+            return _root_param12(cl, src["l"], depth + 1)
+    return None
